@@ -155,6 +155,7 @@ class Checker:
     def __init__(self, run, tools):
         self.run, self.T = run, tools
         self.n_corr_bad = 0
+        self.spec_failed = set()     # cmp/kind cases already reported with a concrete pair by types_spec
 
     def replay_text(self, case, ac, am, extra=""):
         return "kind: input\ncase: %s\n%simpl:\n  %s\nmodel:\n  %s\n" % (case, extra, "\n  ".join(ac[:12]), "\n  ".join(am[:12]))
@@ -263,11 +264,85 @@ class Checker:
             else:
                 self.n_corr_bad += 1
                 first = next((x for x in zip(a, b) if x[0] != x[1]), (a[len(b):][:1] or ["<missing>"], b[len(a):][:1] or ["<missing>"]))
-                if not spec_bad:
+                if not spec_bad and c not in self.spec_failed:
                     run.violation("correspondence:" + c.replace(" ", "_")[:90],
                                   "model and implementation differ on %r: impl=%r model=%r%s" % (c[:200], first[0], first[1], SWITCH_HINT),
                                   "kind: correspondence\ncase: %s\nimpl:\n  %s\nmodel:\n  %s\n" % (c, "\n  ".join(a[:20]), "\n  ".join(b[:20])),
                                   no_input=True)
+
+
+UNORDERED = 2147483647
+T_MACHINE, T_PU = 0, 4
+
+
+def types_spec(run, cases, ac):
+    """The compare_types / kind clauses of the property evaluated directly on what the C code answered for the
+    400 `cmp` and 20 `kind` cases (finite domain: a broken clause always has a concrete pair).  Independent of Coq."""
+    cmp, kind = {}, {}
+    for c, a in zip(cases, ac):
+        f = (a[0] if a else "").split()
+        if c.startswith("cmp ") and len(f) == 4:
+            cmp[(int(f[1]), int(f[2]))] = int(f[3])
+        elif c.startswith("kind ") and len(f) == 9:
+            kind[int(f[1])] = tuple(int(x) for x in f[2:6])     # normal memory io misc
+    failed = set()
+    if len(cmp) < 400 or len(kind) < 20:
+        return failed
+
+    def bad(key, what, lines):
+        failed.update(lines)
+        run.violation(key, what, "kind: input\n" + "".join("case: %s\n" % l for l in lines) +
+                      "impl:\n" + "".join("  %s -> %s\n" % (l, cmp.get(tuple(int(x) for x in l.split()[1:])) if l.startswith("cmp") else kind.get(int(l.split()[1]))) for l in lines))
+
+    normal = {t: kind[t][0] == 1 for t in range(20)}
+    for t in range(20):
+        run.count("kinds %d %r" % (t, kind[t]), kind="spec:kinds")
+        if sum(kind[t]) != 1:
+            bad("spec:kinds-exclusive:%d" % t, "type %d: (normal, memory, io, misc) = %r, exactly one must hold" % (t, kind[t]), ["kind %d" % t])
+        if t != T_MACHINE:
+            for a, b, want in ((T_MACHINE, t, "< 0"), (t, T_MACHINE, "> 0")):
+                v = cmp[(a, b)]
+                if v == UNORDERED or (want == "< 0" and not v < 0) or (want == "> 0" and not v > 0):
+                    bad("spec:compare-types-machine-top:%d:%d" % (a, b),
+                        "hwloc_compare_types(%d,%d) = %s, Machine must be above every other type (%s)" % (a, b, "UNORDERED" if v == UNORDERED else v, want),
+                        ["cmp %d %d" % (a, b), "cmp %d %d" % (b, a)])
+        if normal[t] and t != T_PU:
+            v = cmp[(t, T_PU)]
+            if v == UNORDERED or not v < 0:
+                bad("spec:compare-types-pu-bottom:%d" % t, "hwloc_compare_types(%d,PU) = %s, PU must be below every other normal type" % (t, "UNORDERED" if v == UNORDERED else v),
+                    ["cmp %d %d" % (t, T_PU), "kind %d" % t])
+    for a in range(20):
+        for b in range(20):
+            x, y = cmp[(a, b)], cmp[(b, a)]
+            run.count("pair %d %d %d %d" % (a, b, x, y), kind="spec:compare-types")
+            ok = (y == UNORDERED) if x == UNORDERED else (y != UNORDERED and y == -x)
+            if not ok and a <= b:
+                bad("spec:compare-types-antisym:%d:%d" % (a, b),
+                    "hwloc_compare_types(%d,%d) = %s but hwloc_compare_types(%d,%d) = %s" % (a, b, "UNORDERED" if x == UNORDERED else x, b, a, "UNORDERED" if y == UNORDERED else y),
+                    ["cmp %d %d" % (a, b), "cmp %d %d" % (b, a)])
+            if normal[a] and normal[b] and x == UNORDERED:
+                bad("spec:compare-types-normal-ordered:%d:%d" % (a, b), "two normal types %d, %d compare UNORDERED" % (a, b),
+                    ["cmp %d %d" % (a, b), "kind %d" % a, "kind %d" % b])
+            if a == b and x != 0:
+                bad("spec:compare-types-reflexive:%d" % a, "hwloc_compare_types(%d,%d) = %d" % (a, a, x), ["cmp %d %d" % (a, a)])
+    return failed
+
+
+def tables_note(run, proof):
+    """a table-based theorem no longer compiles: name the entries that changed w.r.t. the golden copy
+    (message only; the oracle is the spec evaluation above and the theorems themselves)"""
+    if proof["ok"]:
+        return
+    try:
+        d = G.tables_diff(os.path.join(CORPUS, "tables.golden"), os.path.join(C.COQ, "Gen", "Tables.v"))
+    except Exception as e:      # the message must never hide the verdict
+        d = ["(could not compare with corpus/c11/tables.golden: %s)" % e]
+    names = [f.get("name") or f["file"] for f in proof["failures"]]
+    if d:
+        run.violation("theorem-tables:" + ",".join(sorted(set(x.split("[")[0].split(":")[0] for x in d)))[:80],
+                      "proof obligation(s) %s no longer check; regenerated table entries that differ from corpus/c11/tables.golden: %s" % (",".join(map(str, names)), "; ".join(d)),
+                      "kind: theorem\nbroken obligations: %s\nchanged table entries (vs corpus/c11/tables.golden):\n  %s\n" % (",".join(map(str, names)), "\n  ".join(d)),
+                      no_input=True)
 
 
 def topo_cases(run, T, srcs):
@@ -358,15 +433,19 @@ def check(run, replay=None):
             ac, am = ck.execute(derived)
             ck.judge(derived, ac, am, "replay", from_load=True)
         if cases:
+            if any(c.startswith(("cmp ", "kind ")) for c in cases):      # finite domain: re-evaluate all of it
+                cases = [c for c in cases if not c.startswith(("cmp ", "kind "))] + ALL_TYPE_CASES
             cases = with_fork_marks(T, [c for c in cases if c.startswith("ssc")]) + [c for c in cases if not c.startswith("ssc")]
             ac, am = ck.execute(cases)
+            ck.spec_failed = types_spec(run, cases, ac) or set()
             ck.judge(cases, ac, am, "replay")
+        tables_note(run, proof)
         return run.finish(proof, trusted=TRUSTED)
 
     rng = run.rng
     # 1. corpus first, then the enumerated / generated cases
     cases = corpus_lines()
-    cases += ["cmp %d %d" % (a, b) for a in range(20) for b in range(20)] + ["kind %d" % a for a in range(20)]
+    cases += ALL_TYPE_CASES
     cases += ["tstr %d" % t for t in range(0, 22)]
     cases += G.tsn_cases(rng, run.tier)
     cases += G.asn_cases(rng, run.tier, T.cls_text, T.lnk_text)
@@ -379,7 +458,9 @@ def check(run, replay=None):
     # corpus ssc lines also need the fork mark when the model predicts OOB
     cases = [c for c in cases if not c.startswith("ssc")] + with_fork_marks(T, [c for c in cases if c.startswith("ssc ")]) + [c for c in cases if c.startswith("ssc!")]
     ac, am = ck.execute(cases)
+    ck.spec_failed = types_spec(run, cases, ac) or set()     # concrete pairs first
     ck.judge(cases, ac, am, "gen")
+    tables_note(run, proof)
 
     # 2. objects of real topologies
     loaded, derived = topo_cases(run, T, xml_sources())
@@ -396,6 +477,8 @@ def check(run, replay=None):
     run.assumptions.append("attr printer: Bridge/PCI objects with total_memory != 0 (never produced by load) are compared with the model only (the printer then stores at (string,size) instead of (tmp,tmplen): latent, see report)")
     return run.finish(proof, trusted=TRUSTED)
 
+
+ALL_TYPE_CASES = ["cmp %d %d" % (a, b) for a in range(20) for b in range(20)] + ["kind %d" % a for a in range(20)]
 
 TRUSTED = ["libc vsnprintf for %s %u %d %x %llu %c (specified as the C99 contract in Base/Snprintf.v; float %.2f and hwloc_pci_class_string() are opaque pieces supplied by the C side)",
            "glibc strtol/strncasecmp/strchr as modelled in Base/Strto.v, Base/Bytes.v (validated by C04's sweep)",
